@@ -184,10 +184,9 @@ def main(prop, tier, seed, replay=None):
         res = mod.run(ctx)
     except Exception:
         print("INFRA check crashed:\n" + traceback.format_exc())
-        return 2
-    finally:
         if ctx.model is not None:
             ctx.model.close()
+        return 2
     violations.extend(res.get("violations", []))
     disagreements = res.get("disagreements", [])
 
@@ -198,6 +197,8 @@ def main(prop, tier, seed, replay=None):
             extra = mod.search(ctx, broken, disagreements) if hasattr(mod, "search") else []
         except Exception:
             print("INFRA search crashed:\n" + traceback.format_exc())
+            if ctx.model is not None:
+                ctx.model.close()
             return 2
         violations.extend(extra)
         if not violations:
@@ -206,6 +207,9 @@ def main(prop, tier, seed, replay=None):
                                                   disagreements=disagreements[:5],
                                                   note="no input violating the property was found on the real implementation"),
                                         found_input=False))
+
+    if ctx.model is not None:
+        ctx.model.close()
 
     # 6. known findings filter, output, evidence
     findings = load_findings()
